@@ -14,7 +14,7 @@ structure Hyp (a b : Ty) (v : Val) : Prop where
   wb : Ty.WF cfg b
   us : b.US
   ok : v.OK
-  tv : Val.TyOK cfg v
+  tv : Val.TyOKS cfg sfh v
 
 def Sound (n : Nat) : Prop :=
   ∀ a b v, a.w + b.w ≤ n → Hyp cfg sfh a b v → asg cfg sfh a b = true → inst cfg sfh b v = true → inst cfg sfh a v = true
@@ -240,7 +240,7 @@ theorem recv_object (p : Option (List Nat)) (b : Ty) (v : Val)
       cases v <;> simp at hi ⊢
       exact isPrefix_trans _ _ _ h hi
 
-theorem Hyp.mk' {a b : Ty} {v : Val} (fa : a.Frag sfh) (fb : b.Frag sfh) (wa : Ty.WF cfg a) (wb : Ty.WF cfg b) (us : b.US) (ok : v.OK) (tv : Val.TyOK cfg v) :
+theorem Hyp.mk' {a b : Ty} {v : Val} (fa : a.Frag sfh) (fb : b.Frag sfh) (wa : Ty.WF cfg a) (wb : Ty.WF cfg b) (us : b.US) (ok : v.OK) (tv : Val.TyOKS cfg sfh v) :
     Hyp cfg sfh a b v := ⟨fa, fb, wa, wb, us, ok, tv⟩
 
 theorem recv_variant (n : Nat) (ih : Sound cfg sfh n) (as : List Ty) (b : Ty) (v : Val)
